@@ -116,8 +116,9 @@ def registry(rng: random.Random) -> Dict[str, Callable[[int], Callable[[], objec
         "Angle.angle": lambda v: lambda: factory.create(Vertex(point([1, 0, 0]), 0), Vertex(point([0, 1, 0]), 1), cb.Angle(v * math.pi / 2 if abs(v) != 1 else v * math.pi / 2, ez)).third_point,
         "Curve.param": lambda v: lambda: cb.DiscreteCurve([point([i, i * i, 0]) for i in range(4)]).get_point(v),
         "Frame.add_beam.pair": lambda v: lambda: Frame().add_beam(0, 1 if v == 1 else 2, "x"),
-        "Mesh.grade": lambda v: lambda: (lambda m: (m.assemble() if v == 1 else None, m.grade()))(mesh_with_box()),
-        "Mesh.backport": lambda v: lambda: (lambda m: (m.assemble() if v == 1 else None, m.backport()))(mesh_with_box()),
+        # class 2: assembled and cleared again - clear() undoes assemble(), the precondition is gone
+        "Mesh.grade": lambda v: lambda: (lambda m: (m.assemble() if v >= 1 else None, m.clear() if v == 2 else None, m.grade()))(mesh_with_box()),
+        "Mesh.backport": lambda v: lambda: (lambda m: (m.assemble() if v >= 1 else None, m.clear() if v == 2 else None, m.backport()))(mesh_with_box()),
     }
 
     def clamp_twice(v):  # noqa: E306
